@@ -90,6 +90,7 @@ template <class S> struct Acc<manif::SE3<S>> {
   static void put(Out& o, const GG& X) {
     o.mat("rot", X.rotation()); o.mat("tr", X.transform()); o.mat("iso", X.isometry().matrix());
     o.vec("trans", X.translation()); o.vec("quat", X.quat().coeffs());
+    o.vec("asso3c", X.asSO3().coeffs()); { GG Xm = X; o.vec("asso3m", Xm.asSO3().coeffs()); }   // the sub-group views (const / mutable)
     o.sc("x", X.x()); o.sc("y", X.y()); o.sc("z", X.z());
     fb<GG>(o, "parts", [&] { return GG(X.translation(), X.quat()); });
     fb<GG>(o, "so3", [&] { return GG(X.translation(), manif::SO3<S>(X.quat())); });
@@ -105,6 +106,7 @@ template <class S> struct Acc<manif::SE_2_3<S>> {
   static void put(Out& o, const GG& X) {
     o.mat("rot", X.rotation()); o.mat("tr", X.transform()); o.mat("iso", X.isometry());
     o.vec("trans", X.translation()); o.vec("quat", X.quat().coeffs()); o.vec("vel", X.linearVelocity());
+    o.vec("asso3c", X.asSO3().coeffs()); { GG Xm = X; o.vec("asso3m", Xm.asSO3().coeffs()); }
     o.sc("x", X.x()); o.sc("y", X.y()); o.sc("z", X.z()); o.sc("vx", X.vx()); o.sc("vy", X.vy()); o.sc("vz", X.vz());
     fb<GG>(o, "parts", [&] { return GG(X.translation(), X.quat(), X.linearVelocity()); });
     fb<GG>(o, "so3", [&] { return GG(X.translation(), manif::SO3<S>(X.quat()), X.linearVelocity()); });
@@ -116,6 +118,7 @@ template <class S> struct Acc<manif::SGal3<S>> {
   static void put(Out& o, const GG& X) {
     o.mat("rot", X.rotation()); o.mat("tr", X.transform()); o.mat("iso", X.isometry());
     o.vec("trans", X.translation()); o.vec("quat", X.quat().coeffs()); o.vec("vel", X.linearVelocity()); o.sc("time", X.t());
+    o.vec("asso3c", X.asSO3().coeffs()); { GG Xm = X; o.vec("asso3m", Xm.asSO3().coeffs()); }
     o.sc("x", X.x()); o.sc("y", X.y()); o.sc("z", X.z()); o.sc("vx", X.vx()); o.sc("vy", X.vy()); o.sc("vz", X.vz());
     fb<GG>(o, "parts", [&] { return GG(X.translation(), X.quat(), X.linearVelocity(), X.t()); });
     fb<GG>(o, "so3", [&] { return GG(X.translation(), manif::SO3<S>(X.quat()), X.linearVelocity(), X.t()); });
